@@ -188,6 +188,10 @@ def run_task(spec, complete_at=None, cancel_at=None):
         wide = track.Task("wide", track.Operation("wide-op", "sim-op", params={"task": "wide"}, param_source="sim-source"),
                           iterations=1, clients=total_clients + abs(spec["via_allocator"]))
         schedule = [wide, element] if spec["via_allocator"] > 0 else [element, wide]
+        if spec.get("allocator_cap") and goff:
+            # (the Allocator wraps client indexes at the widest element of the schedule: no wider element here, a narrower one instead)
+            narrow = track.Task("narrow", wide.operation, iterations=1, clients=1)
+            schedule = [narrow, element] if spec["via_allocator"] > 0 else [element, narrow]
         for row, entries in enumerate(driver.Allocator(schedule).allocations):
             for entry in entries:
                 for ta in (entry if isinstance(entry, list) else [entry]):
